@@ -8,8 +8,8 @@ PARTIAL = H.PARTIAL
 COMPONENTS = H.COMPONENTS
 RULE = H.RULE
 ASSUMPTIONS = []
-EXPLANATION = 'refinement theorem about an explicit slot model, tied to the real objects by a differential test after every operation + history oracle (the comparison with a fresh object tree IS the property; constructor parameters of the assets compared with their values after construction after every set-up call: oracle parameter_changed)'
-TECHNIQUE = 'Lean 4 theorems about an explicit state-machine model of the mutable slots, differential test of that model against the real objects, history oracle on the real code (fresh-object comparison, constructor parameters unchanged)'
+EXPLANATION = 'refinement theorem about an explicit slot model, tied to the real objects by a differential test after every operation + history oracle (the comparison with a fresh object tree IS the property; constructor parameters of the assets compared with their values after construction after every set-up call: oracle parameter_changed; price containers that a call changed are handed, as a copy and next to a pristine copy, to later calls - cast to every grid of the case, set-up of a fresh tree - which must agree: oracle prices_changed_for_later_calls; streams layout (same object, other variables from one set-up to the next because the grid or the data changed) and pdata (one price container object, every container kind, through every door on several horizons))'
+TECHNIQUE = 'Lean 4 theorems about an explicit state-machine model of the mutable slots, differential test of that model against the real objects, history oracle on the real code (fresh-object comparison, constructor parameters unchanged, changed price containers re-used in later calls)'
 NEEDS_DRIVER = True
 scenarios = H.scenarios
 run_case = H.run_case
